@@ -27,6 +27,10 @@ class ErrA(NodeFail):
     pass
 
 
+class ErrA2(ErrA):
+    """a subclass: matches a retry policy configured with ErrA"""
+
+
 class ErrB(NodeFail):
     pass
 
@@ -47,7 +51,14 @@ class CollabErr(Exception):
     """raised by event managers / stores according to their raise plan"""
 
 
-EXC = {'ErrA': ErrA, 'ErrB': ErrB, 'ErrC': ErrC, 'Fatal': Fatal}
+EXC = {'ErrA': ErrA, 'ErrA2': ErrA2, 'ErrB': ErrB, 'ErrC': ErrC, 'Fatal': Fatal}
+EXC_CONFIGURABLE = dict(EXC, NodeFail=NodeFail)
+
+
+def exc_matches(outcome, configured):
+    """does the exception raised for `outcome` match a retry policy configured with these class names (isinstance
+    semantics of an `except` clause)"""
+    return any(issubclass(EXC[outcome], EXC_CONFIGURABLE[c]) for c in configured)
 
 
 def is_value(v):
